@@ -117,11 +117,46 @@ func c13(c *core.Ctx) {
 			continue
 		}
 		// must look at the remaining length (trailing bytes)
+		// the remaining length is compared with 0 (not merely used for offsets) and the non-zero side returns an error
 		trailing := false
-		core.Calls(f.Decl.Body, false, func(call *ast.CallExpr) {
-			if core.IsCallTo(f.Info(), call, "bytes.Reader.Len") {
-				trailing = true
+		ast.Inspect(f.Decl.Body, func(x ast.Node) bool {
+			is, ok := x.(*ast.IfStmt)
+			if !ok {
+				return true
 			}
+			be, ok := core.Unparen(is.Cond).(*ast.BinaryExpr)
+			if !ok {
+				return true
+			}
+			isLen := func(e ast.Expr) bool {
+				call, ok := core.Unparen(e).(*ast.CallExpr)
+				return ok && core.IsCallTo(f.Info(), call, "bytes.Reader.Len")
+			}
+			var other ast.Expr
+			if isLen(be.X) {
+				other = be.Y
+			} else if isLen(be.Y) {
+				other = be.X
+			}
+			if other == nil || !isConst(f.Info(), other, 0) {
+				return true
+			}
+			branch := ast.Stmt(is.Body)
+			if be.Op == token.EQL {
+				branch = is.Else
+			} else if be.Op != token.NEQ && be.Op != token.GTR && be.Op != token.LSS {
+				return true
+			}
+			if branch == nil {
+				return true
+			}
+			ast.Inspect(branch, func(y ast.Node) bool {
+				if ret, isRet := y.(*ast.ReturnStmt); isRet && len(ret.Results) > 0 && !core.IsNilIdent(f.Info(), ret.Results[len(ret.Results)-1]) {
+					trailing = true
+				}
+				return true
+			})
+			return true
 		})
 		if trailing {
 			validators[f.Obj] = true
